@@ -620,3 +620,73 @@ def run_buffer(chk, F, CG, rid="R-BUFFER"):
 
 def fkey_params(c):
     return len(c.get("args", []))
+
+
+# ---------------------------------------------------------------------------------------------- errno
+def run_errno(chk, F, rid="R-ERRNO"):
+    """errno is process-global and is left behind by unrelated earlier calls (strtod/atof range errors, a failed
+    open).  It may be *reported* (copied into an exception), but it must not decide anything - which exception
+    class is thrown, which branch is taken - unless the same function cleared it before the call it reports on."""
+    chk.rule(rid, "errno never decides control flow (condition of if / ?: / switch / loop) unless the function assigns "
+                  "errno = 0 beforehand; copying it into an exception object is allowed")
+    n = 0
+    for fn in F.functions.values():
+        if not (fn.get("file") or "").startswith(("/repo", front_repo())) and "/src/" not in (fn.get("file") or ""):
+            continue
+        body = fn.get("body")
+        uses = [x for x in walk(body) if x.get("k") == "call" and x.get("name") == "__errno_location"]
+        if not uses:
+            continue
+        cleared_lines = [x.get("l") for x in walk(body)
+                         if x.get("k") == "bin" and x.get("op") == "=" and
+                         any(y.get("k") == "call" and y.get("name") == "__errno_location" for y in walk(x["lhs"])) and
+                         x["rhs"].get("k") == "int" and x["rhs"].get("v") == 0]
+
+        # locals that hold a copy of errno (`const auto err = errno;`, also as an if-init)
+        tainted = set()
+        for d in walk(body):
+            if d.get("k") == "decl":
+                for v in d.get("vars", []):
+                    if v.get("init") is not None and any(y.get("k") == "call" and y.get("name") == "__errno_location"
+                                                         for y in walk(v["init"])):
+                        tainted.add(v.get("id"))
+        for x in walk(body):
+            if x.get("k") == "bin" and x.get("op") == "=" and x["lhs"].get("k") == "ref" and \
+                    any(y.get("k") == "call" and y.get("name") == "__errno_location" for y in walk(x["rhs"])):
+                tainted.add(x["lhs"].get("id"))
+
+        def conds(node, out):
+            if isinstance(node, list):
+                for y in node:
+                    conds(y, out)
+                return
+            if not isinstance(node, dict):
+                return
+            k = node.get("k")
+            if k in ("if", "while", "for", "do", "switch", "cond") and node.get("c") is not None:
+                for y in walk(node["c"]):
+                    if y.get("k") == "call" and y.get("name") == "__errno_location":
+                        out.append(y)
+                    if y.get("k") == "ref" and y.get("id") in tainted and y.get("id") is not None:
+                        out.append(y)
+            for v in node.values():
+                if isinstance(v, (dict, list)):
+                    conds(v, out)
+        deciding = []
+        conds(body, deciding)
+        n += 1
+        bad = [d for d in deciding if not any(cl is not None and cl < (d.get("l") or 0) for cl in cleared_lines)]
+        chk.ob(rid, fn["q"].split("::")[-1] + "|errno", not bad,
+               "%s branches on errno (line %s) without having cleared it: what it does depends on whether an earlier, "
+               "unrelated call of the process left errno set (e.g. the exception class for a truncated document)" %
+               (fn["q"], ", ".join(str(d.get("l")) for d in bad)) if bad else
+               "%s only reports errno (%d use(s)), it does not branch on it" % (fn["q"], len(uses)),
+               "%s:%s" % (fn["file"], uses[0].get("l")))
+    if n == 0:
+        chk.note("no use of errno in the library")
+        chk.ob(rid, "none", True, "the library does not use errno")
+
+
+def front_repo():
+    from ..front import REPO
+    return REPO
